@@ -225,10 +225,25 @@ func vhAncestors(parents [][]int, start int) (map[int]bool, bool) {
 // VH_C09_dispatch: an event sent to location `at` runs exactly the rules of `at` and of
 // its transitive parents (never those of its children), and a parent set changed just
 // before the event is the one that counts.
-func VH_C09_dispatch(kind, n0, n1, at int) {
+func VH_C09_dispatch(kind, n0, n1, at int) { vhC09Dispatch(kind, n0, n1, at, false) }
+
+// VH_C09_dispatch_cond: the same with a pattern condition on every rule (an inherited
+// search runs between rule selection and the action) satisfied by one fact of the
+// event's location.
+func VH_C09_dispatch_cond(kind, n0, n1, at int) { vhC09Dispatch(kind, n0, n1, at, true) }
+
+func vhC09Dispatch(kind, n0, n1, at int, withCond bool) {
 	f := vhNewForest(kind)
 	for i, loc := range f.locs {
-		_, err := loc.AddRule(f.ctx, "r"+vhLocNames[i], vhRule(map[string]interface{}{"a": "?x"}, "act"+vhLocNames[i]))
+		r := vhRule(map[string]interface{}{"a": "?x"}, "act"+vhLocNames[i])
+		if withCond {
+			r["condition"] = map[string]interface{}{"pattern": map[string]interface{}{"c": "?y"}}
+		}
+		_, err := loc.AddRule(f.ctx, "r"+vhLocNames[i], r)
+		vassume(err == nil)
+	}
+	if withCond {
+		_, err := f.locs[at].AddFact(f.ctx, "cf", Map{"c": "v"})
 		vassume(err == nil)
 	}
 	// an earlier parent set that is then replaced
@@ -263,6 +278,12 @@ func VH_C09_dispatch(kind, n0, n1, at int) {
 			want = 1
 		}
 		vassert(n == want, "rule-runs-iff-own-or-inherited")
+	}
+	// an inherited rule runs in the location the event was sent to, not in the location
+	// that stores the rule: that is the location its action sees and changes
+	for _, e := range f.in.execs {
+		vassert(e.ctxLoc == vhLocNames[at], "action-runs-in-the-events-location")
+		vassert(e.argLoc == vhLocNames[at], "action-runs-in-the-events-location")
 	}
 	vreach("end")
 }
